@@ -989,6 +989,14 @@ Proof.
   - unfold vsize, nrows. cbn [vel]. now rewrite map_length.
 Qed.
 
+(* on a rectangular matrix, success means EVERY row has the vector's length *)
+Corollary m_matvec_rows_full : forall m x w,
+  rectangular (mrows m) (ncols m) -> m_matvec m x = RVec w -> rectangular (mrows m) (vsize x).
+Proof.
+  intros m x w Hrect H. destruct (m_matvec_correct (fun _ => 0) (fun _ => 0) _ _ _ H) as (_ & E & _).
+  now rewrite <- E.
+Qed.
+
 (* ---- 4. rejection ---- *)
 Theorem m_getitem_out_of_range : forall m i j,
   (i < - Z.of_nat (nrows m) \/ Z.of_nat (nrows m) <= i)%Z \/
@@ -1076,3 +1084,421 @@ Qed.
 
 Theorem m_matvec_mismatch : forall m x, ncols m <> vsize x -> m_matvec m x = RErr EDim.
 Proof. unfold m_matvec. intros m x H. apply Nat.eqb_neq in H. now rewrite H. Qed.
+
+(* ================================================================== *)
+(* 5. slice_indices means what Python's slice(a,b,c).indices(n) means  *)
+(* ================================================================== *)
+Section Go.
+  Variables st b : Z.
+  Fixpoint go_up (fuel : nat) (i : Z) : list nat :=
+    match fuel with
+    | O => []
+    | S f => if (i <? b)%Z then Z.to_nat i :: go_up f (i + st)%Z else []
+    end.
+  Fixpoint go_dn (fuel : nat) (i : Z) : list nat :=
+    match fuel with
+    | O => []
+    | S f => if (b <? i)%Z then Z.to_nat i :: go_dn f (i + st)%Z else []
+    end.
+End Go.
+
+Definition slice_step (c : option Z) : Z := match c with Some s => s | None => 1%Z end.
+(* normalised bounds, as CPython's PySlice_AdjustIndices computes them *)
+Definition norm_up (zn x : Z) : Z := if (x <? 0)%Z then Z.max 0 (x + zn) else Z.min zn x.
+Definition norm_dn (zn x : Z) : Z := if (x <? 0)%Z then Z.max (-1) (x + zn) else Z.min (zn - 1) x.
+Definition start_up (n : nat) (a : option Z) : Z := match a with Some x => norm_up (Z.of_nat n) x | None => 0%Z end.
+Definition stop_up (n : nat) (b : option Z) : Z := match b with Some x => norm_up (Z.of_nat n) x | None => Z.of_nat n end.
+Definition start_dn (n : nat) (a : option Z) : Z := match a with Some x => norm_dn (Z.of_nat n) x | None => (Z.of_nat n - 1)%Z end.
+Definition stop_dn (n : nat) (b : option Z) : Z := match b with Some x => norm_dn (Z.of_nat n) x | None => (-1)%Z end.
+
+Lemma slice_indices_unfold : forall n a b c,
+  slice_indices n a b c =
+  if (slice_step c =? 0)%Z then None
+  else if (0 <? slice_step c)%Z then Some (go_up (slice_step c) (stop_up n b) n (start_up n a))
+  else Some (go_dn (slice_step c) (stop_dn n b) n (start_dn n a)).
+Proof. reflexivity. Qed.
+
+Lemma start_up_range : forall n a, (0 <= start_up n a <= Z.of_nat n)%Z.
+Proof. intros n [x|]; unfold start_up, norm_up; [destruct (x <? 0)%Z eqn:E; [apply Z.ltb_lt in E|apply Z.ltb_ge in E]|]; lia. Qed.
+Lemma stop_up_range : forall n b, (0 <= stop_up n b <= Z.of_nat n)%Z.
+Proof. intros n [x|]; unfold stop_up, norm_up; [destruct (x <? 0)%Z eqn:E; [apply Z.ltb_lt in E|apply Z.ltb_ge in E]|]; lia. Qed.
+Lemma start_dn_range : forall n a, (-1 <= start_dn n a <= Z.of_nat n - 1)%Z.
+Proof. intros n [x|]; unfold start_dn, norm_dn; [destruct (x <? 0)%Z eqn:E; [apply Z.ltb_lt in E|apply Z.ltb_ge in E]|]; lia. Qed.
+Lemma stop_dn_range : forall n b, (-1 <= stop_dn n b <= Z.of_nat n - 1)%Z.
+Proof. intros n [x|]; unfold stop_dn, norm_dn; [destruct (x <? 0)%Z eqn:E; [apply Z.ltb_lt in E|apply Z.ltb_ge in E]|]; lia. Qed.
+
+(* ascending walk: in range, strictly increasing, and exactly the arithmetic progression below b *)
+Lemma go_up_props : forall st b n, (0 < st)%Z -> (b <= Z.of_nat n)%Z ->
+  forall fuel i, (0 <= i)%Z ->
+  Forall (fun k => (Z.to_nat i <= k < n)%nat) (go_up st b fuel i) /\ StronglySorted lt (go_up st b fuel i).
+Proof.
+  intros st b n Hst Hb. induction fuel as [|f IH]; intros i Hi; simpl.
+  - split; constructor.
+  - destruct (i <? b)%Z eqn:E; [apply Z.ltb_lt in E | split; constructor].
+    destruct (IH (i + st)%Z ltac:(lia)) as [HF HS]. split.
+    + constructor; [lia|]. eapply Forall_impl; [|exact HF]. simpl. intros k Hk. lia.
+    + constructor; auto. eapply Forall_impl; [|exact HF]. simpl. intros k Hk. lia.
+Qed.
+
+Lemma go_up_sound : forall st b fuel i k, In k (go_up st b fuel i) ->
+  exists j : nat, (i + Z.of_nat j * st < b)%Z /\ k = Z.to_nat (i + Z.of_nat j * st).
+Proof.
+  intros st b. induction fuel as [|f IH]; intros i k H; simpl in H; [contradiction|].
+  destruct (i <? b)%Z eqn:E; [apply Z.ltb_lt in E | contradiction]. destruct H as [<- | H].
+  - exists 0%nat. simpl. rewrite Z.add_0_r. auto.
+  - destruct (IH _ _ H) as (j & Hj & ->). exists (S j).
+    replace (i + Z.of_nat (S j) * st)%Z with (i + st + Z.of_nat j * st)%Z by lia. auto.
+Qed.
+
+(* the fuel never cuts the walk short *)
+Lemma go_up_complete : forall st b, (0 < st)%Z ->
+  forall fuel i (j : nat), (b - i <= Z.of_nat fuel)%Z -> (i + Z.of_nat j * st < b)%Z ->
+  In (Z.to_nat (i + Z.of_nat j * st)) (go_up st b fuel i).
+Proof.
+  intros st b Hst. induction fuel as [|f IH]; intros i j Hf Hj.
+  - exfalso. nia.
+  - simpl. assert (Hib : (i < b)%Z) by nia. apply Z.ltb_lt in Hib. rewrite Hib. apply Z.ltb_lt in Hib.
+    destruct j as [|j].
+    + left. f_equal. lia.
+    + right. replace (i + Z.of_nat (S j) * st)%Z with (i + st + Z.of_nat j * st)%Z by lia.
+      apply IH; lia.
+Qed.
+
+Lemma go_dn_props : forall st b n, (st < 0)%Z -> (-1 <= b)%Z ->
+  forall fuel i, (i <= Z.of_nat n - 1)%Z ->
+  Forall (fun k => (Z.of_nat k <= i)%Z /\ (k < n)%nat) (go_dn st b fuel i) /\
+  StronglySorted gt (go_dn st b fuel i).
+Proof.
+  intros st b n Hst Hb. induction fuel as [|f IH]; intros i Hi; simpl.
+  - split; constructor.
+  - destruct (b <? i)%Z eqn:E; [apply Z.ltb_lt in E | split; constructor].
+    destruct (IH (i + st)%Z ltac:(lia)) as [HF HS]. split.
+    + constructor; [lia|]. eapply Forall_impl; [|exact HF]. simpl. intros k Hk. lia.
+    + constructor; auto. eapply Forall_impl; [|exact HF]. simpl. intros k Hk. lia.
+Qed.
+
+Lemma go_dn_sound : forall st b fuel i k, In k (go_dn st b fuel i) ->
+  exists j : nat, (b < i + Z.of_nat j * st)%Z /\ k = Z.to_nat (i + Z.of_nat j * st).
+Proof.
+  intros st b. induction fuel as [|f IH]; intros i k H; simpl in H; [contradiction|].
+  destruct (b <? i)%Z eqn:E; [apply Z.ltb_lt in E | contradiction]. destruct H as [<- | H].
+  - exists 0%nat. simpl. rewrite Z.add_0_r. auto.
+  - destruct (IH _ _ H) as (j & Hj & ->). exists (S j).
+    replace (i + Z.of_nat (S j) * st)%Z with (i + st + Z.of_nat j * st)%Z by lia. auto.
+Qed.
+
+Lemma go_dn_complete : forall st b, (st < 0)%Z ->
+  forall fuel i (j : nat), (i - b <= Z.of_nat fuel)%Z -> (b < i + Z.of_nat j * st)%Z ->
+  In (Z.to_nat (i + Z.of_nat j * st)) (go_dn st b fuel i).
+Proof.
+  intros st b Hst. induction fuel as [|f IH]; intros i j Hf Hj.
+  - exfalso. nia.
+  - simpl. assert (Hib : (b < i)%Z) by nia. apply Z.ltb_lt in Hib. rewrite Hib. apply Z.ltb_lt in Hib.
+    destruct j as [|j].
+    + left. f_equal. lia.
+    + right. replace (i + Z.of_nat (S j) * st)%Z with (i + st + Z.of_nat j * st)%Z by lia.
+      apply IH; lia.
+Qed.
+
+(* every selected position is a valid index *)
+Theorem slice_indices_bound : forall n a b c idx,
+  slice_indices n a b c = Some idx -> Forall (fun k => (k < n)%nat) idx.
+Proof.
+  intros n a b c idx. rewrite slice_indices_unfold.
+  destruct (slice_step c =? 0)%Z eqn:E0; [discriminate|]. apply Z.eqb_neq in E0.
+  destruct (0 <? slice_step c)%Z eqn:E1; intros H; injection H as <-.
+  - apply Z.ltb_lt in E1. pose proof (start_up_range n a). pose proof (stop_up_range n b).
+    destruct (go_up_props (slice_step c) (stop_up n b) n E1 ltac:(lia) n (start_up n a) ltac:(lia)) as [HF _].
+    eapply Forall_impl; [|exact HF]. simpl. intros k Hk. lia.
+  - apply Z.ltb_ge in E1. pose proof (start_dn_range n a). pose proof (stop_dn_range n b).
+    destruct (go_dn_props (slice_step c) (stop_dn n b) n ltac:(lia) ltac:(lia) n (start_dn n a) ltac:(lia)) as [HF _].
+    eapply Forall_impl; [|exact HF]. simpl. intros k Hk. lia.
+Qed.
+
+(* views are MONOTONE selections *)
+Theorem slice_indices_increasing : forall n a b c idx,
+  (0 < slice_step c)%Z -> slice_indices n a b c = Some idx -> StronglySorted lt idx.
+Proof.
+  intros n a b c idx Hc. rewrite slice_indices_unfold.
+  destruct (slice_step c =? 0)%Z eqn:E0; [discriminate|].
+  apply Z.ltb_lt in Hc. rewrite Hc. apply Z.ltb_lt in Hc. intros H; injection H as <-.
+  pose proof (start_up_range n a). pose proof (stop_up_range n b).
+  now destruct (go_up_props (slice_step c) (stop_up n b) n Hc ltac:(lia) n (start_up n a) ltac:(lia)).
+Qed.
+
+Theorem slice_indices_decreasing : forall n a b c idx,
+  (slice_step c < 0)%Z -> slice_indices n a b c = Some idx -> StronglySorted gt idx.
+Proof.
+  intros n a b c idx Hc. rewrite slice_indices_unfold.
+  destruct (slice_step c =? 0)%Z eqn:E0; [discriminate|].
+  destruct (0 <? slice_step c)%Z eqn:E1; [apply Z.ltb_lt in E1; lia|]. intros H; injection H as <-.
+  pose proof (start_dn_range n a). pose proof (stop_dn_range n b).
+  now destruct (go_dn_props (slice_step c) (stop_dn n b) n Hc ltac:(lia) n (start_dn n a) ltac:(lia)).
+Qed.
+
+Lemma StronglySorted_NoDup : forall (R : nat -> nat -> Prop) l,
+  (forall x, ~ R x x) -> StronglySorted R l -> NoDup l.
+Proof.
+  intros R l Hirr H. induction H as [|x l HS IH HF]; constructor; auto.
+  intros Hin. rewrite Forall_forall in HF. exact (Hirr x (HF x Hin)).
+Qed.
+
+Theorem slice_indices_NoDup : forall n a b c idx, slice_indices n a b c = Some idx -> NoDup idx.
+Proof.
+  intros n a b c idx H. destruct (Z.lt_trichotomy (slice_step c) 0) as [Hc | [Hc | Hc]].
+  - eapply (StronglySorted_NoDup gt); [intros x; lia|]. eapply slice_indices_decreasing; eauto.
+  - rewrite slice_indices_unfold, Hc in H. discriminate.
+  - eapply (StronglySorted_NoDup lt); [intros x; lia|]. eapply slice_indices_increasing; eauto.
+Qed.
+
+Theorem slice_indices_step0 : forall n a b, slice_indices n a b (Some 0%Z) = None.
+Proof. reflexivity. Qed.
+
+Theorem slice_indices_defined : forall n a b c, slice_step c <> 0%Z -> exists idx, slice_indices n a b c = Some idx.
+Proof.
+  intros n a b c Hc. rewrite slice_indices_unfold. apply Z.eqb_neq in Hc. rewrite Hc.
+  destruct (0 <? slice_step c)%Z; eauto.
+Qed.
+
+(* exactly Python's range(start', stop', step) with the normalised bounds: membership *)
+Theorem slice_indices_up_spec : forall n a b c idx k,
+  (0 < slice_step c)%Z -> slice_indices n a b c = Some idx ->
+  (In k idx <-> exists j : nat, (start_up n a + Z.of_nat j * slice_step c < stop_up n b)%Z /\
+                                k = Z.to_nat (start_up n a + Z.of_nat j * slice_step c)).
+Proof.
+  intros n a b c idx k Hc. rewrite slice_indices_unfold.
+  destruct (slice_step c =? 0)%Z eqn:E0; [discriminate|].
+  apply Z.ltb_lt in Hc. rewrite Hc. apply Z.ltb_lt in Hc. intros H; injection H as <-.
+  pose proof (start_up_range n a). pose proof (stop_up_range n b). split.
+  - apply go_up_sound.
+  - intros (j & Hj & ->). apply go_up_complete; auto. lia.
+Qed.
+
+Theorem slice_indices_dn_spec : forall n a b c idx k,
+  (slice_step c < 0)%Z -> slice_indices n a b c = Some idx ->
+  (In k idx <-> exists j : nat, (stop_dn n b < start_dn n a + Z.of_nat j * slice_step c)%Z /\
+                                k = Z.to_nat (start_dn n a + Z.of_nat j * slice_step c)).
+Proof.
+  intros n a b c idx k Hc. rewrite slice_indices_unfold.
+  destruct (slice_step c =? 0)%Z eqn:E0; [discriminate|].
+  destruct (0 <? slice_step c)%Z eqn:E1; [apply Z.ltb_lt in E1; lia|]. intros H; injection H as <-.
+  pose proof (start_dn_range n a). pose proof (stop_dn_range n b). split.
+  - apply go_dn_sound.
+  - intros (j & Hj & ->). apply go_dn_complete; auto. lia.
+Qed.
+
+Lemma go_up_seq : forall f k, go_up 1 (Z.of_nat (k + f)) f (Z.of_nat k) = seq k f.
+Proof.
+  induction f as [|f IH]; intros k; simpl; auto.
+  assert (E : (Z.of_nat k <? Z.of_nat (k + S f))%Z = true) by (apply Z.ltb_lt; lia). rewrite E.
+  rewrite Nat2Z.id. f_equal. replace (Z.of_nat k + 1)%Z with (Z.of_nat (S k)) by lia.
+  replace (k + S f)%nat with (S k + f)%nat by lia. apply IH.
+Qed.
+
+Theorem slice_full : forall n, slice_indices n None None None = Some (seq 0 n).
+Proof. intros n. rewrite slice_indices_unfold. simpl. f_equal. exact (go_up_seq n 0). Qed.
+
+Lemma go_dn_rev : forall f, go_dn (-1) (-1) f (Z.of_nat f - 1) = rev (seq 0 f).
+Proof.
+  induction f as [|f IH]; auto.
+  rewrite seq_S, rev_app_distr. simpl rev. simpl app. cbn [go_dn].
+  assert (E : (-1 <? Z.of_nat (S f) - 1)%Z = true) by (apply Z.ltb_lt; lia). rewrite E.
+  f_equal; [lia|]. replace (Z.of_nat (S f) - 1 + -1)%Z with (Z.of_nat f - 1)%Z by lia. apply IH.
+Qed.
+
+Theorem slice_reverse : forall n, slice_indices n None None (Some (-1)%Z) = Some (rev (seq 0 n)).
+Proof. intros n. rewrite slice_indices_unfold. simpl. f_equal. exact (go_dn_rev n). Qed.
+
+(* x[:] and x[::-1] on values *)
+Corollary np_slice_full : forall l, np_slice l None None None = Some l.
+Proof.
+  intros l. unfold np_slice. rewrite slice_full. simpl. f_equal. unfold np_select, np_index.
+  symmetry. rewrite <- (map_id l) at 1. apply (list_as_seq (fun x => x) 0 l).
+Qed.
+
+Corollary np_slice_reverse : forall l, np_slice l None None (Some (-1)%Z) = Some (rev l).
+Proof.
+  intros l. unfold np_slice. rewrite slice_reverse. simpl. f_equal. unfold np_select, np_index.
+  rewrite map_rev. f_equal. symmetry. rewrite <- (map_id l) at 1. apply (list_as_seq (fun x => x) 0 l).
+Qed.
+
+Example slice_5_1_4 : slice_indices 5 (Some 1%Z) (Some 4%Z) None = Some [1;2;3]%nat.
+Proof. vm_compute. reflexivity. Qed.
+Example slice_5_rev : slice_indices 5 None None (Some (-1)%Z) = Some [4;3;2;1;0]%nat.
+Proof. vm_compute. reflexivity. Qed.
+Example slice_5_step2 : slice_indices 5 None None (Some 2%Z) = Some [0;2;4]%nat.
+Proof. vm_compute. reflexivity. Qed.
+Example slice_5_m2 : slice_indices 5 (Some (-2)%Z) None None = Some [3;4]%nat.
+Proof. vm_compute. reflexivity. Qed.
+Example slice_5_4_1_m2 : slice_indices 5 (Some 4%Z) (Some 1%Z) (Some (-2)%Z) = Some [4;2]%nat.
+Proof. vm_compute. reflexivity. Qed.
+Example slice_5_10_20 : slice_indices 5 (Some 10%Z) (Some 20%Z) None = Some [].
+Proof. vm_compute. reflexivity. Qed.
+Example slice_5_step0 : slice_indices 5 None None (Some 0%Z) = None.
+Proof. vm_compute. reflexivity. Qed.
+Example slice_5_m100 : slice_indices 5 (Some (-100)%Z) (Some 100%Z) None = Some [0;1;2;3;4]%nat.
+Proof. vm_compute. reflexivity. Qed.
+Example slice_5_rev_from_10 : slice_indices 5 (Some 10%Z) (Some (-10)%Z) (Some (-3)%Z) = Some [4;1]%nat.
+Proof. vm_compute. reflexivity. Qed.
+
+(* ---- a slice of a well-formed VectorVariable is a well-formed VectorVariable ----
+   (uses that the selection is in range and duplicate-free); hence reductions compose
+   with views: sum(x[a:b:c]) = np_sum of the selected values *)
+Lemma NoDupb_NoDup : forall l, NoDupb l = true <-> NoDup l.
+Proof.
+  induction l as [|x r IH]; simpl.
+  - split; [constructor | auto].
+  - rewrite andb_true_iff, negb_true_iff, IH. split.
+    + intros [Hx Hr]. constructor; auto. intros Hin.
+      assert (E : existsb (String.eqb x) r = true) by (apply existsb_exists; exists x; split; auto; apply String.eqb_refl).
+      congruence.
+    + intros H. inversion H as [|? ? Hx Hr]; subst. split; auto.
+      destruct (existsb (String.eqb x) r) eqn:E; auto. apply existsb_exists in E.
+      destruct E as (y & Hy & Exy). apply String.eqb_eq in Exy. subst. contradiction.
+Qed.
+
+Lemma vars_as_names : forall es, forallb is_var es = true -> es = map Var (vec_names es).
+Proof.
+  induction es as [|e es IH]; simpl; intros H; auto. apply andb_prop in H. destruct H as [He H].
+  destruct e; try discriminate. simpl. f_equal. now apply IH.
+Qed.
+
+Lemma vec_names_map_Var : forall names, vec_names (map Var names) = names.
+Proof. induction names as [|x r IH]; simpl; auto. now rewrite IH. Qed.
+
+Lemma NoDup_map_inj_on : forall {A B} (f : A -> B) l,
+  NoDup l -> (forall x y, In x l -> In y l -> f x = f y -> x = y) -> NoDup (map f l).
+Proof.
+  intros A B f l H. induction H as [|x l Hx Hl IH]; intros Hinj; simpl; constructor.
+  - intros Hin. apply in_map_iff in Hin. destruct Hin as (y & Hy & Hyin).
+    assert (y = x) by (apply Hinj; simpl; auto). subst. contradiction.
+  - apply IH. intros a b Ha Hb. apply Hinj; simpl; auto.
+Qed.
+
+Lemma select_wf : forall i es idx,
+  kind_wf (KVar i) es = true -> NoDup idx -> Forall (fun k => (k < length es)%nat) idx ->
+  kind_wf (KVar 0) (select c0e es idx) = true.
+Proof.
+  intros i es idx Hwf Hnd Hb. simpl in Hwf. apply andb_prop in Hwf. destruct Hwf as [Hv Hn].
+  apply NoDupb_NoDup in Hn. rewrite (vars_as_names es Hv) in *. set (names := vec_names es) in *.
+  rewrite vec_names_map_Var in Hn. rewrite map_length in Hb.
+  assert (Hsel : select c0e (map Var names) idx = map Var (map (fun k => nth k names ""%string) idx)).
+  { unfold select. rewrite map_map. apply map_ext_in. intros k Hk.
+    rewrite Forall_forall in Hb. specialize (Hb k Hk).
+    rewrite (nth_indep _ c0e (Var ""%string)) by now rewrite map_length. apply map_nth. }
+  rewrite Hsel. simpl. apply andb_true_intro. split.
+  - apply forallb_forall. intros e He. apply in_map_iff in He. destruct He as (x & <- & _). reflexivity.
+  - rewrite vec_names_map_Var. apply NoDupb_NoDup. apply NoDup_map_inj_on; auto.
+    intros x y Hx Hy Hxy. rewrite Forall_forall in Hb.
+    eapply (proj1 (NoDup_nth names ""%string)); eauto.
+Qed.
+
+Theorem v_slice_wf : forall v i a b c w,
+  vk v = KVar i -> kind_wf (vk v) (vel v) = true ->
+  v_slice v a b c = RVec w -> kind_wf (vk w) (vel w) = true.
+Proof.
+  intros v i a b c w Hk Hwf H. destruct (v_slice_correct (fun _ => 0) (fun _ => 0) _ _ _ _ _ H)
+    as (idx & Hidx & _ & Hvel & Hkw & _).
+  rewrite Hkw, Hvel. rewrite Hk in Hwf. eapply select_wf; eauto.
+  - eapply slice_indices_NoDup; eauto.
+  - eapply slice_indices_bound; eauto.
+Qed.
+
+Corollary v_sum_slice : forall rho penv v i a b c w e,
+  vk v = KVar i -> kind_wf (vk v) (vel v) = true ->
+  v_slice v a b c = RVec w -> v_sum w = RExpr e ->
+  exists idx, slice_indices (vsize v) a b c = Some idx /\
+              evalR rho penv e = np_sum (np_select (ev rho penv v) idx).
+Proof.
+  intros rho penv v i a b c w e Hk Hwf Hs Hsum.
+  pose proof (v_slice_wf _ _ _ _ _ _ Hk Hwf Hs) as Hw.
+  destruct (v_slice_correct rho penv _ _ _ _ _ Hs) as (idx & Hidx & _ & _ & _ & Hev & _).
+  exists idx. split; auto. rewrite <- Hev. now apply v_sum_correct.
+Qed.
+
+(* ================================================================== *)
+(* 6. Symmetric matrices share their off-diagonal entries              *)
+(* ================================================================== *)
+Theorem sym_rows_symmetric : forall names n i j d,
+  (i < n)%nat -> (j < n)%nat ->
+  nth j (nth i (sym_rows names n) []) d = nth i (nth j (sym_rows names n) []) d.
+Proof.
+  intros names n i j d Hi Hj. unfold sym_rows.
+  rewrite !(nth_map_seq _ n _ []) by assumption. rewrite !nth_map_seq by assumption.
+  destruct (Nat.ltb j i) eqn:E1; destruct (Nat.ltb i j) eqn:E2; auto.
+  - apply Nat.ltb_lt in E1. apply Nat.ltb_lt in E2. lia.
+  - apply Nat.ltb_ge in E1. apply Nat.ltb_ge in E2. assert (i = j) by lia. now subst.
+Qed.
+
+Theorem sym_rows_shape : forall names n, shape (sym_rows names n) = repeat n n.
+Proof.
+  intros names n. unfold sym_rows, shape. rewrite map_map.
+  transitivity (map (fun _ : nat => n) (seq 0 n)).
+  - apply map_ext. intros i. now rewrite map_length, seq_length.
+  - assert (Hrep : forall (l : list nat) (c : nat), map (fun _ => c) l = repeat c (length l))
+      by (induction l as [|x l IHl]; simpl; intros; f_equal; auto).
+    now rewrite Hrep, seq_length.
+Qed.
+
+(* ================================================================== *)
+(* Non-vacuity: a concrete 2x3 MatrixVariable times a 3-vector         *)
+(* ================================================================== *)
+Definition exM : mobj := mkM true [[Var "a00"; Var "a01"; Var "a02"]; [Var "a10"; Var "a11"; Var "a12"]]%string.
+Definition exX : vobj := mkV (KVar 1) [Var "x0"; Var "x1"; Var "x2"]%string.
+Definition ex_rho : env := fun s =>
+  if String.eqb s "a00" then 1 else if String.eqb s "a01" then 2 else if String.eqb s "a02" then 3 else
+  if String.eqb s "a10" then 4 else if String.eqb s "a11" then 5 else if String.eqb s "a12" then 6 else
+  if String.eqb s "x0" then 1 else if String.eqb s "x1" then 2 else if String.eqb s "x2" then 3 else 0.
+
+Example m_matvec_example :
+  exists w, m_matvec exM exX = RVec w /\ ev ex_rho (fun _ => 0) w = [14; 32].
+Proof.
+  eexists. split; [reflexivity|]. unfold ev, ex_rho. simpl. unfold Q2R. simpl.
+  apply f_equal2; [lra|]. apply f_equal2; [lra|reflexivity].
+Qed.
+
+(* the same through the general theorem: the NumPy product of the VALUES *)
+Example m_matvec_example_np :
+  np_matvec (evm ex_rho (fun _ => 0) exM) (ev ex_rho (fun _ => 0) exX) = [14; 32].
+Proof.
+  unfold evm, ev, ex_rho, np_matvec, np_dot. simpl.
+  apply f_equal2; [lra|]. apply f_equal2; [lra|reflexivity].
+Qed.
+
+Example m_matvec_example_rejected :
+  m_matvec exM (mkV (KVar 2) [Var "x0"; Var "x1"]%string) = RErr EDim.
+Proof. reflexivity. Qed.
+
+Example v_binop_example_rejected :
+  v_binop Add exX (AVec (mkV (KVar 2) [Var "y0"; Var "y1"]%string)) = RErr EDim.
+Proof. reflexivity. Qed.
+
+Example v_slice_example :
+  v_slice exX None None (Some (-1)%Z) = RVec (mkV (KVar 0) [Var "x2"; Var "x1"; Var "x0"]%string).
+Proof. reflexivity. Qed.
+
+Example m_T_example :
+  m_T exM = RMat (mkM true [[Var "a00"; Var "a10"]; [Var "a01"; Var "a11"]; [Var "a02"; Var "a12"]]%string).
+Proof. reflexivity. Qed.
+
+(* ================================================================== *)
+Print Assumptions v_getitem_correct.
+Print Assumptions v_slice_correct.
+Print Assumptions v_binop_vec.
+Print Assumptions v_binop_vec_mismatch.
+Print Assumptions v_sum_correct.
+Print Assumptions v_dot_matvec_correct.
+Print Assumptions v_dot_matvec_mismatch.
+Print Assumptions matvec_correct.
+Print Assumptions quad_form_correct.
+Print Assumptions m_T_correct.
+Print Assumptions m_trace_correct.
+Print Assumptions m_binop_mat.
+Print Assumptions m_matvec_correct.
+Print Assumptions m_frob_correct.
+Print Assumptions slice_indices_bound.
+Print Assumptions slice_indices_increasing.
+Print Assumptions slice_indices_up_spec.
+Print Assumptions v_sum_slice.
+Print Assumptions sym_rows_symmetric.
+Print Assumptions m_matvec_example.
